@@ -1,12 +1,18 @@
 #!/bin/sh
-# Rebuild the chunker shim from /repo's current working tree (skipped when adapters.cpp is unchanged).
+# Rebuild the chunker shim from /repo's current working tree.  The library is named after the hash of its sources, so checks that run at
+# the same time against different trees (seeded changes, builder worktrees) never load each other's build; prints the library's path.
 set -e
 here=$(cd "$(dirname "$0")" && pwd)
 src=${REPO:-/repo}/src/adapters.cpp
-sum=$(sha256sum "$src" "$here/wrap.cpp" "$here/shim/pybind11/pybind11.h" | sha256sum | cut -d' ' -f1)
-out=$here/pyshim/libgcshim.so
-if [ -f "$out" ] && [ "$(cat "$here/pyshim/.sum" 2>/dev/null)" = "$sum" ]; then exit 0; fi
-tmp=$out.$$.tmp
-g++ -std=c++17 -O2 -mpclmul -msse2 -msse4.1 -fPIC -shared -I "$here/shim" -DADAPTERS_CPP="\"$src\"" "$here/wrap.cpp" -o "$tmp"
-mv "$tmp" "$out"
-echo "$sum" > "$here/pyshim/.sum"
+sum=$(sha256sum "$src" "$here/wrap.cpp" "$here/shim/pybind11/pybind11.h" | sha256sum | cut -c1-16)
+out=$here/pyshim/libgcshim-$sum.so
+if [ ! -f "$out" ]; then
+  tmp=$out.$$.tmp
+  g++ -std=c++17 -O2 -mpclmul -msse2 -msse4.1 -fPIC -shared -I "$here/shim" -DADAPTERS_CPP="\"$src\"" "$here/wrap.cpp" -o "$tmp"
+  mv "$tmp" "$out"
+  # keep the directory small: drop builds older than a day
+  find "$here/pyshim" -name 'libgcshim-*.so' -mmin +1440 -delete 2>/dev/null || true
+fi
+# default name for tools that import the shim without going through bin/check (the tree of /repo only)
+if [ "${REPO:-/repo}" = "/repo" ]; then ln -sf "$(basename "$out")" "$here/pyshim/libgcshim.so.new" && mv -f "$here/pyshim/libgcshim.so.new" "$here/pyshim/libgcshim.so"; fi
+echo "NATIVE_LIB=$out"
